@@ -234,6 +234,7 @@ class Scratch:
 
 
 _cnt = [0]
+_cnt_lock = __import__("threading").Lock()
 
 
 def tlc(module, cfg, scratch, workers=None, env=None, timeout=900, simulate=None,
@@ -242,10 +243,13 @@ def tlc(module, cfg, scratch, workers=None, env=None, timeout=900, simulate=None
     """Run TLC on spec/<module>.tla with spec/<cfg>.  Returns a dict with the
     parsed summary.  Raises MachineryError on parse/semantic/evaluation errors
     (TLC exit codes other than 0 / 12 / 13 (violations))."""
-    _cnt[0] += 1
-    meta = scratch.sub("tlc-meta-%d-%d" % (os.getpid(), _cnt[0]))
+    with _cnt_lock:
+        _cnt[0] += 1
+        mycnt = _cnt[0]
+    meta = scratch.sub("tlc-meta-%d-%d" % (os.getpid(), mycnt))
+    jtmp = scratch.sub("jtmp-%d-%d" % (os.getpid(), mycnt))
     workers = workers or NCPU
-    jopts = ["-XX:+UseParallelGC", "-Xmx" + xmx, "-Xss16m"]
+    jopts = ["-XX:+UseParallelGC", "-Xmx" + xmx, "-Xss16m", "-Djava.io.tmpdir=" + jtmp]
     if deque:
         jopts.append("-Dtlc2.tool.queue.IStateQueue=StateDeque")
     cmd = ["java"] + jopts + ["-cp", TLC_JAR, "tlc2.TLC", "-workers", str(workers),
@@ -273,6 +277,7 @@ def tlc(module, cfg, scratch, workers=None, env=None, timeout=900, simulate=None
         out = ex.stdout.decode() if isinstance(ex.stdout, bytes) else (ex.stdout or "")
         rc, timed_out = -9, True
     shutil.rmtree(meta, ignore_errors=True)
+    shutil.rmtree(jtmp, ignore_errors=True)
     res = {"rc": rc, "out": out, "wall_s": time.time() - t0, "timed_out": timed_out,
            "generated": 0, "distinct": 0, "depth": 0, "violated": [], "cmd": " ".join(cmd)}
     m = None
